@@ -581,6 +581,13 @@ def prime_continuation(F, rep):
     loops = [w for w in nodes(fn_body(fn), "While")
              if any((pat_variant(alt) or "").endswith("Token::Newline") for mm in nodes(w.get("cond") or {}, "Match") for a in mm["arms"]
                     for alt in pat_alternatives(a["pat"]))]
+    # .. on both sides of the comma: a single conditional step (`skip_if(T::Newline)`) passes over one line break only
+    single = [c for c in nodes(fn_body(fn), "MethodCall") if c["m"] == "skip_if" and "Token::Newline" in pp(c)]
+    rep.ob("NEWLINE-MODE", "assignable_call|continuation-after-the-comma-skips-runs", not single and len(loops) >= 2,
+           "line breaks are passed over in runs before and after the comma (%d loops)" % len(loops) if not single and len(loops) >= 2 else
+           "after the comma of a prime call's argument list only one line break is passed over (`%s`): a blank or comment-only line "
+           "behind a comma ends the list - `f' a,⏎⏎ b` becomes `f(a)` followed by the statement `b`" % (pp(single[0])[:50] if single else "%d loop(s)" % len(loops)),
+           line_of(single[0]) if single else fn["sp"])
     rep.ob("NEWLINE-MODE", "assignable_call|continuation-skips-runs", not fixed and bool(loops),
            "the continuation test of a prime call's argument list passes over any run of line breaks around the comma" if not fixed and loops else
            "the continuation test of a prime call's argument list is a fixed two-token lookahead (`[Newline, Comma]` / `[Comma, Newline]`): "
@@ -909,4 +916,7 @@ def _mode_after(site, parents, parsers, PUSH):
                     return True
                 if is_parser_call(x):
                     return "calls %s() with newline skipping as it was" % last(callee(x))
+                if x.get("k") == "MethodCall" and (callee(x) or "").startswith(P + "Context::") and x["m"] in ("token", "tokens_lookahead", "peek", "eat"):
+                    return "looks at the token behind the bracket (`%s`) with newline skipping as it was - a line break directly after the " \
+                           "bracket is the token it sees" % pp(x)[:40]
     return "returns without switching newline skipping on"
